@@ -248,8 +248,9 @@ def refmaps(cases, profile="debug"):
         if b"]:" not in md:
             continue
         fm = [kv.split("=", 1)[1] for kv in o.split(",") if kv.startswith("front_matter_delimiter=")]
-        if fm and md.lstrip(b"\xef\xbb\xbf").startswith(unhx(fm[0])):
-            continue        # prepending would turn the front matter into blocks
+        # prepending would turn a front matter into blocks: such documents get the query appended instead
+        # (after a blank line; an unclosed fence / HTML block at the end swallows it and the label stays unknown)
+        at_end = bool(fm and md.lstrip(b"\xef\xbb\xbf").startswith(unhx(fm[0])))
         seen = set()
         for m in LABEL_RE.finditer(md):
             lab = m.group(1)
@@ -257,19 +258,23 @@ def refmaps(cases, profile="debug"):
                 continue
             seen.add(lab)
             bom = b"\xef\xbb\xbf" if md.startswith(b"\xef\xbb\xbf") else b""
-            qlines.append(f"parse {o} {hx(bom + b'[' + lab + b']' + bytes([10, 10]) + md[len(bom):])}")
-            owner.append((i, lab))
+            if at_end:
+                qlines.append(f"parse {o} {hx(md + (b'' if md.endswith(bytes([10])) else bytes([10])) + bytes([10]) + b'[' + lab + b']' + bytes([10]))}")
+            else:
+                qlines.append(f"parse {o} {hx(bom + b'[' + lab + b']' + bytes([10, 10]) + md[len(bom):])}")
+            owner.append((i, lab, at_end))
     out = {}
     if not qlines:
         return out
     ans = vlib.run_lines(vlib.VH[profile], qlines, timeout=1800)
-    for (i, lab), a in zip(owner, ans):
+    for (i, lab, at_end), a in zip(owner, ans):
         if not a.startswith("ok "):
             continue
         t = parse_tree(a[3:].split(" "))
-        if not t.ch or t.ch[0].kind != "Paragraph" or len(t.ch[0].ch) != 1 or t.ch[0].ch[0].kind != "Link":
+        q = (t.ch[-1] if at_end else t.ch[0]) if t.ch else None
+        if q is None or q.kind != "Paragraph" or len(q.ch) != 1 or q.ch[0].kind != "Link":
             continue
-        lk = t.ch[0].ch[0]
+        lk = q.ch[0]
         out.setdefault(i, []).append((lab, unhx(lk.fields[0]), unhx(lk.fields[1])))
     return out
 
